@@ -87,8 +87,10 @@ def gen_case(seed, profile=None):
     return case, rng
 
 
-ANCHOR_MOVING_LIB = ("transformations", "transformationsfilter", "propagateanchors", "propagateanchorsfilter")
-ANCHOR_MOVING_CLS = ("TransformationsFilter", "PropagateAnchorsFilter", "PropagateAnchorsIFilter")
+ANCHOR_MOVING_LIB = ("transformations", "transformationsfilter", "propagateanchors", "propagateanchorsfilter",
+                     "dottedcircle", "dottedcirclefilter")
+ANCHOR_MOVING_CLS = ("TransformationsFilter", "PropagateAnchorsFilter", "PropagateAnchorsIFilter",
+                     "DottedCircleFilter")
 
 
 def varfea_anchor_gap(case, step):
@@ -166,8 +168,9 @@ def gen_variant(rng, case, vid, inc, extents):
                                        "at": rng.randint(1, ext["calls"]),
                                        "gran": "call"}
     inplace = [i for i in range(n) if rng.random() < 0.15 and not varfea_anchor_gap(case, case["steps"][i])
-               and not ttflags_gap(case, case["steps"][i])
-               and not case.get("history_free")]
+               and not ttflags_gap(case, case["steps"][i])]
+    # (inplace steps run on a throw-away, identically materialised world, so they
+    # are history-free by construction and allowed in history-free cases too)
     return {"vid": vid, "inc": inc, "mat": mat, "env": env, "fresh": fresh, "order": order,
             "repeat": repeat, "faulted": faulted, "inplace": inplace}
 
